@@ -8,7 +8,11 @@ import StorageModel.Base.Bytes
   after it, ProcessBeforeDelete before the bucket is deleted).
 
   One store of ext-entities with a `name` field and the system-entity constraint.  An entity
-  bucket is modelled by the stored `isSystem` key (`none` = key absent) and the name.  Every
+  bucket is modelled by everything `BaseExtEntity` persists: the stored `isSystem` key (`none` =
+  key absent), `createdAt` / `updatedAt` (either the clock or a value carried by the entity), the
+  tags, plus the name.  `SetBaseValues` / `CreateBaseValues` / `UpdateBaseValues` are followed
+  branch by branch, including the `Migrate` field of the in-memory entity, which steers
+  `CreateBaseValues` (and nothing else).  Every
   operation returns the state reached *including partial writes* and the Go error; `commitTx`
   models `Db.Update` (a body that returns an error is rolled back).
 -/
@@ -56,17 +60,70 @@ end Map
 
 /-! ### state -/
 
-/-- the part of an entity bucket the property speaks about -/
-structure Ent (N : Type) where
+/-- a persisted timestamp: `time.Now()` (not compared) or a value carried by the entity -/
+inductive Stamp (T : Type)
+  | now
+  | given (t : T)
+  deriving DecidableEq, Repr
+
+/-- an entity bucket: what `BaseExtEntity` persists, and the name -/
+structure Ent (N T : Type) where
   /-- the stored `isSystem` key: `none` = absent (read back as false) -/
   flag : Option Bool
   name : N
+  /-- the tags map, reduced to the value under one key (`none` = no such key) -/
+  tags : Option N
+  created : Stamp T
+  updated : Stamp T
   deriving DecidableEq, Repr
 
-abbrev St (K N : Type) := Map K (Ent N)
+abbrev St (K N T : Type) := Map K (Ent N T)
 
 /-- `LoadBaseValues`: `bucket.GetBoolWithDefault(FieldIsSystemEntity, false)` -/
-def Ent.isSystem {N : Type} (e : Ent N) : Bool := e.flag.getD false
+def Ent.isSystem {N T : Type} (e : Ent N T) : Bool := e.flag.getD false
+
+/-- the in-memory entity handed to `Create` / `Update`: every field of `BaseExtEntity` (besides the
+    id) and the name -/
+structure Vals (N T : Type) where
+  /-- `IsSystem` -/
+  flag : Bool
+  /-- `Migrate` -/
+  migrate : Bool
+  /-- `CreatedAt`, `UpdatedAt` -/
+  cAt : T
+  uAt : T
+  tags : Option N
+  name : N
+  deriving Repr
+
+/-- `BaseExtEntity.CreateBaseValues` -/
+def createBaseValues {N T : Type} (v : Vals N T) (e : Ent N T) : Ent N T :=
+  -- if entity.Migrate { SetTimeP(createdAt, &entity.CreatedAt); SetTimeP(updatedAt, &entity.UpdatedAt) } else { now, now }
+  let e1 := if v.migrate then { e with created := .given v.cAt, updated := .given v.uAt }
+            else { e with created := .now, updated := .now }
+  -- PutMap(tags, entity.Tags, nil, false)
+  let e2 := { e1 with tags := v.tags }
+  -- if entity.IsSystem { SetBool(isSystem, true, nil) }
+  if v.flag then { e2 with flag := some true } else e2
+
+/-- `BaseExtEntity.UpdateBaseValues`: `updatedAt := now` (nil checker), tags through the field
+    checker; `isSystem`, `createdAt` and the entity's `Migrate` / `IsSystem` / timestamps are not
+    looked at -/
+def updateBaseValues {N T : Type} (v : Vals N T) (setTags : Bool) (e : Ent N T) : Ent N T :=
+  { e with updated := .now, tags := if setTags then v.tags else e.tags }
+
+/-- `BaseExtEntity.SetBaseValues`: `if ctx.IsCreate { CreateBaseValues } else { UpdateBaseValues }` -/
+def setBaseValues {N T : Type} (isCreate : Bool) (v : Vals N T) (setTags : Bool) (e : Ent N T) : Ent N T :=
+  if isCreate then createBaseValues v e else updateBaseValues v setTags e
+
+/-- `PersistEntity`: `entity.SetBaseValues(ctx); ctx.SetString("name", entity.Name)` -/
+def persist {N T : Type} (isCreate : Bool) (v : Vals N T) (setName setTags : Bool) (e : Ent N T) : Ent N T :=
+  let e1 := setBaseValues isCreate v setTags e
+  if setName then { e1 with name := v.name } else e1
+
+/-- the freshly created, still empty entity bucket (the name slot is filled by `persist`) -/
+def blankEnt {N T : Type} (n : N) : Ent N T :=
+  { flag := none, name := n, tags := none, created := .now, updated := .now }
 
 inductive Err
   | sysCreate   -- "cannot create system … in a non-system context"
@@ -77,41 +134,41 @@ inductive Err
   | blank
   deriving DecidableEq, Repr
 
-inductive Op (K N : Type)
-  /-- `store.Create(ctx, &foo{IsSystem: flag, Name: name})`; `sys` = the context is a system context -/
-  | create (sys : Bool) (id : K) (blank : Bool) (flag : Bool) (name : N)
-  /-- `store.Update(ctx, &foo{IsSystem: flag, Name: name}, checker)`; `setName` = the checker is nil
-      or lists "name" (whether it lists "isSystem" is irrelevant to the code and therefore not a
-      parameter of the model; the harness varies it) -/
-  | update (sys : Bool) (id : K) (flag : Bool) (name : N) (setName : Bool)
+inductive Op (K N T : Type)
+  /-- `store.Create(ctx, entity)`; `sys` = the context is a system context -/
+  | create (sys : Bool) (id : K) (blank : Bool) (v : Vals N T)
+  /-- `store.Update(ctx, entity, checker)`; `setName` / `setTags` = the checker is nil or lists the
+      field (whether it lists "isSystem", "createdAt", … is irrelevant to the code and therefore not
+      a parameter of the model; the harness varies it) -/
+  | update (sys : Bool) (id : K) (v : Vals N T) (setName setTags : Bool)
   | delete (sys : Bool) (id : K)
   | read (id : K)
   deriving Repr
 
 section
-variable {K N : Type} [DecidableEq K]
+variable {K N T : Type} [DecidableEq K]
 
 /-- `systemEntityConstraint.checkOperation`: the STORED flag, and the kind of context -/
-def refused (s : St K N) (id : K) (sys : Bool) : Bool :=
+def refused (s : St K N T) (id : K) (sys : Bool) : Bool :=
   match s.get id with
   | some e => e.isSystem && !sys
   | none => false
 
-structure Out (K N : Type) where
-  st : St K N
+structure Out (K N T : Type) where
+  st : St K N T
   err : Option Err := none
 
-def step (s : St K N) : Op K N → Out K N
-  | .create sys id blank flag name =>
+def step (s : St K N T) : Op K N T → Out K N T
+  | .create sys id blank v =>
     if blank then { st := s, err := some .blank }
     else match s.get id with
     | some _ => { st := s, err := some .exists }
     | none =>
-      -- PersistEntity → CreateBaseValues: the key is written only when the flag is set
-      let s1 := s.put id { flag := if flag then some true else none, name := name }
+      -- PersistEntity (IsCreate, nil checker) → SetBaseValues → CreateBaseValues
+      let s1 := s.put id (persist true v true true (blankEnt v.name))
       -- ProcessAfterUpdate (IsCreate): checkOperation on what is now stored
       if refused s1 id sys then { st := s1, err := some .sysCreate } else { st := s1 }
-  | .update sys id _flag name setName =>
+  | .update sys id v setName setTags =>
     match s.get id with
     | none => { st := s, err := some .notFound }
     | some e =>
@@ -119,8 +176,8 @@ def step (s : St K N) : Op K N → Out K N
       -- PersistEntity then refuses to write; ProcessAfterUpdate is skipped; bucket.Err is returned
       if refused s id sys then { st := s, err := some .sysUpdate }
       else
-        -- UpdateBaseValues never writes isSystem
-        { st := if setName then s.put id { e with name := name } else s }
+        -- PersistEntity (not IsCreate) → SetBaseValues → UpdateBaseValues
+        { st := s.put id (persist false v setName setTags e) }
   | .delete sys id =>
     match s.get id with
     | none => { st := s, err := some .notFound }
@@ -132,7 +189,7 @@ def step (s : St K N) : Op K N → Out K N
 /-- the body of one `Db.Update`.  `keepGoing`: the caller ignores every error except a refused
     create and carries on (and finally commits); a refused create always aborts.
     Returns the state reached and whether the body failed. -/
-def runOps (keepGoing : Bool) : St K N → List (Op K N) → St K N × Bool
+def runOps (keepGoing : Bool) : St K N T → List (Op K N T) → St K N T × Bool
   | s, [] => (s, false)
   | s, op :: ops =>
     let o := step s op
@@ -140,30 +197,44 @@ def runOps (keepGoing : Bool) : St K N → List (Op K N) → St K N × Bool
     | none => runOps keepGoing o.st ops
     | some e => if keepGoing && e ≠ .sysCreate then runOps keepGoing o.st ops else (o.st, true)
 
-def commitTx (s : St K N) (tx : Bool × List (Op K N)) : St K N :=
+def commitTx (s : St K N T) (tx : Bool × List (Op K N T)) : St K N T :=
   let r := runOps tx.1 s tx.2
   if r.2 then s else r.1
 
-def runHist (s : St K N) (txs : List (Bool × List (Op K N))) : St K N := txs.foldl commitTx s
+def runHist (s : St K N T) (txs : List (Bool × List (Op K N T))) : St K N T := txs.foldl commitTx s
 
 /-! ### specification: what the property text says -/
 
-/-- abstract entity: is it a system entity, and its name -/
-abbrev SSt (K N : Type) := Map K (Bool × N)
+/-- abstract entity: is it a system entity (fixed at creation), and the mutable rest -/
+structure SEnt (N T : Type) where
+  isSys : Bool
+  name : N
+  tags : Option N
+  created : Stamp T
+  updated : Stamp T
+  deriving DecidableEq, Repr
+
+abbrev SSt (K N T : Type) := Map K (SEnt N T)
 
 /-- `none` = the operation fails (and then changes nothing) -/
-def sstep (s : SSt K N) : Op K N → Option (SSt K N)
-  | .create sys id blank flag name =>
-    if blank || (s.get id).isSome || (flag && !sys) then none else some (s.put id (flag, name))
-  | .update sys id _ name setName =>
+def sstep (s : SSt K N T) : Op K N T → Option (SSt K N T)
+  | .create sys id blank v =>
+    if blank || (s.get id).isSome || (v.flag && !sys) then none
+    else some (s.put id { isSys := v.flag, name := v.name, tags := v.tags,
+                          created := if v.migrate then .given v.cAt else .now,
+                          updated := if v.migrate then .given v.uAt else .now })
+  | .update sys id v setName setTags =>
     match s.get id with
     | none => none
-    | some (isSys, _) =>
-      if isSys && !sys then none else if setName then some (s.put id (isSys, name)) else some s
+    | some e =>
+      if e.isSys && !sys then none
+      else some (s.put id { e with name := if setName then v.name else e.name,
+                                   tags := if setTags then v.tags else e.tags,
+                                   updated := .now })
   | .delete sys id =>
     match s.get id with
     | none => none
-    | some (isSys, _) => if isSys && !sys then none else some (s.del id)
+    | some e => if e.isSys && !sys then none else some (s.del id)
   | .read _ => some s
 
 end
